@@ -71,6 +71,21 @@ DETECT = {
     "C16-D": ("C16", ["C16"], "escaped at first: state_dict() taken before the first iteration of an empty/short epoch"),
     "C17-C": ("C17", ["C17"], ""),
     "C17-D": ("C17", ["C17"], ""),
+    # third round
+    "C01-E": ("C01", ["C15", "C01"], "RandomSampler load jumps instead of replaying: needs replacement=True / num_samples > len (buffer refilled mid-epoch). C15 raised an INTERNAL ERROR at first (uncaught ZeroDivisionError from the changed code): uncaught exceptions from the code under test are now a broken correspondence, the C15 interpreters turn them into observations, and C01's loader oracle generates such samplers"),
+    "C03-E": ("C03", ["C03", "C05"], "escaped at first: `timeout=` with a fetch slower than the timeout and a consumer that retries was not generated; added (virtual-time slow fetches)"),
+    "C03-F": ("C03", ["C03"], "escaped at first: needed items drawn from numpy's global RNG in the workers (virtual processes now carry numpy's RNG state too; `map_rng` draws from torch, random and numpy)"),
+    "C04-E": ("C04", ["C04"], ""),
+    "C04-F": ("C04", ["C04"], "the changed code spins forever inside Filter.next (a real, non-virtual loop): the check itself hung at first; a per-case CPU/wall watchdog now reports such a case as a failing input"),
+    "C05-F": ("C05", ["C03", "C09", "C05"], ""),
+    "C07-E": ("C07", ["C07"], ""),
+    "C07-F": ("C07", ["C05", "C07"], ""),
+    "C08-E": ("C08", ["C08"], ""),
+    "C08-F": ("C08", ["C08"], "escaped at first: needed a dataset whose state is falsy ({}) before the first fetch, loaded into a loader that had already advanced (both added)"),
+    "C10-E": ("C10", ["C10"], "at first only via the broken K-T correspondence: errors with in_order=False are now generated and compared as multisets per epoch"),
+    "C10-F": ("C10", ["C10"], "as C10-E"),
+    "C16-E": ("C16", ["C16"], ""),
+    "C16-F": ("C16", ["C16"], ""),
     "C13-D": ("C13", ["C01"], "_sampler_iter_yielded not zeroed on _reset: caught by C01's resume oracle with persistent workers (second epoch), not by C13"),
 }
 
